@@ -128,8 +128,8 @@ Print Assumptions C07_linbasex_order_key_collision_refuted.
 (* ---- rbasex: holds with the recorded defective paths excluded ------------------------------------------ *)
 (* hazards (model/CacheRbasex.v `hazard`): a call whose Distributions raises,
    an invalid reg, an unwritable basis_dir, reuse of the cached Distributions
-   object after the weights changed in place, reuse of the cached image basis
-   for another output geometry, direct calls of the accessor get_bs_cached;
+   object after the weights changed in place, direct calls of the accessor
+   get_bs_cached;
    each has its refutation theorem below.  The quantities computed by
    abel.tools.vmi.Distributions (rmax, valid mask, output geometry) are inputs
    of the model, assumed to be functions of (parameters, weights content). *)
@@ -140,14 +140,12 @@ Proof. exact CacheRbasexInv.history_independent_partial. Qed.
 Print Assumptions C07_rbasex_history_independent_partial.
 
 (* ---- rbasex: the findings --------------------------------------------------------------------------------- *)
-(* F5 *)
-Theorem C07_rbasex_ibs_refuted :
-  res_code (CacheRbasex.fresh CacheRbasexProofs.ibs_call) = 0 /\
+(* F5 is fixed in /repo (image basis keyed by its geometry): the former
+   refutation is now an instance of the positive theorem *)
+Example C07_rbasex_ibs_keyed :
   CacheRbasex.out_eqv (CacheRbasex.last_result CacheRbasexProofs.ibs_hist CacheRbasexProofs.ibs_call)
-                      (CacheRbasex.fresh CacheRbasexProofs.ibs_call) = false /\
-  CacheRbasex.ibs_mismatch (CacheRbasex.last_result CacheRbasexProofs.ibs_hist CacheRbasexProofs.ibs_call) = true.
-Proof. exact CacheRbasexProofs.ibs_not_keyed_refuted. Qed.
-Print Assumptions C07_rbasex_ibs_refuted.
+                      (CacheRbasex.fresh CacheRbasexProofs.ibs_call) = true.
+Proof. exact CacheRbasexProofs.ibs_keyed. Qed.
 
 (* F6 *)
 Theorem C07_rbasex_weights_identity_refuted :
